@@ -57,7 +57,7 @@ Unmock == /\ pc = "unmock"
           /\ UNCHANGED <<p, s, m>>
 \* the Impl<T> path (C01's delegating body)
 Delegate == /\ pc = "delegate"
-            /\ LET b == Body(p, m) c == Top(stack) e == [f |-> b.callee, deps |-> IF b.passSelf THEN c.recv ELSE "-", args |-> c.args] IN
+            /\ LET b == Body([p @@ [hyg |-> FALSE, opt |-> "unimock"]], m) c == Top(stack) e == [f |-> b.callee, deps |-> IF b.passSelf THEN c.recv ELSE "-", args |-> c.args] IN
                viol' = viol \cup EnterGuard(stack, Sc(p, s), e) /\ stack' = DoEnter(stack, e)
             /\ pc' = "fn" /\ UNCHANGED <<p, s, m, outcome>>
 FnBody == /\ pc = "fn"
